@@ -533,7 +533,8 @@ class QvmCode(BaseCode):
             for label, data in self._data.items():
                 s += f'{label}:\n'
                 for item in data:
-                    item = '<EMPTY>' if item == Empty.value else ''
+                    item = '<EMPTY>' if item == Empty.value else \
+                        f'"{item}"'
                     s += f'    {item}\n'
             s += '\n;;;;;;;;;;;;;;;;;;;;;;;;;;;;;;\n'
 
